@@ -286,11 +286,13 @@ class eval_abs(object):
             elif ptr_diff <0 and ptr_diff + k.size/8>0:
                 ov.append((-ptr_diff, k))
         """
-        # suppose max mem size is 64 bytes, compute all reachable addresses
+        # a stored cell may start before the access: look back as far as
+        # the widest cell of the pool reaches (128 bits for an xmm store)
+        back = max([c.size for c, _ in self.pool.pool_mem.values()] + [8])//8 - 1
         to_test = []
         #comp = {}
         #print("FINDING %s" % e)
-        for i in range(-7, e.size//8):
+        for i in range(-back, e.size//8):
             ex = expr_simp(e.arg + ExprInt(uint32(i)))
             #print("%s %s"%(i, ex))
             to_test.append((i, ex))
